@@ -72,22 +72,27 @@ ParseList(b) == LET l == RdVec16(b) IN IF ~l.ok \/ l.rest # <<>> THEN Err ELSE P
 S1 == <<1, 3>>  S2 == <<1, 2>>  S3 == <<1, 1>>
 SuiteLists == {<<>>, <<S1>>, <<S2>>, <<S3>>, <<S1, S2>>, <<S2, S1>>, <<S1, S2, S3>>, <<S3, S2, S1>>}
 Cfgs == [id : {0, 1, 255}, kem : {32}, pk : {Rep(7, 0), Rep(7, 1), Rep(7, 32)}, suites : SuiteLists,
-         name : {Rep(97, n) : n \in {1, 2, 239, 240, 255}}]
+         name : {Rep(97, n) : n \in {0, 1, 2, 239, 240, 255, 256}}]
+\* section 4: HpkePublicKey public_key<1..2^16-1>, HpkeSymmetricCipherSuite cipher_suites<4..2^16-4>, opaque public_name<1..255>.
+\* A spec outside these bounds has no well-formed encoding: ConfigSpec.Bytes must refuse it (whatever it produced would be an
+\* ECHConfig that is not a section 4 structure).
+Encodable(c) == Len(c.pk) >= 1 /\ Len(c.suites) >= 1 /\ Len(c.name) \in 1..255
 
 VARIABLES cs
-Init == cs \in {<<>>} \cup {<<c>> : c \in Cfgs} \cup {<<c, d>> : c \in {x \in Cfgs : x.id = 1 /\ Len(x.pk) = 32}, d \in {x \in Cfgs : Len(x.name) <= 2 /\ Len(x.pk) = 32}}
+Init == cs \in {<<>>} \cup {<<c>> : c \in Cfgs} \cup {<<c, d>> : c \in {x \in Cfgs : x.id = 1 /\ Len(x.pk) = 32 /\ Encodable(x)}, d \in {x \in Cfgs : Len(x.name) <= 2 /\ Len(x.pk) = 32 /\ Encodable(x)}}
+AllEnc == \A i \in DOMAIN cs : Encodable(cs[i])
 Next == UNCHANGED cs
 Spec == Init /\ [][Next]_cs
 Derived(c) == [id |-> c.id, kem |-> c.kem, pk |-> c.pk, suites |-> c.suites, maxlen |-> Min(Len(c.name) + 16, 255), name |-> c.name]
-RoundTrip == LET b == EncList(cs) p == ParseList(b) IN p.ok /\ p.v = [i \in 1..Len(cs) |-> Derived(cs[i])]
-TruncRejected == LET b == EncList(cs) IN \A n \in 0..(Len(b) - 1) : ~ParseList(SubSeq(b, 1, n)).ok
-CutDomain == Len(cs) = 1 /\ Len(cs[1].name) <= 2
+RoundTrip == AllEnc => LET b == EncList(cs) p == ParseList(b) IN p.ok /\ p.v = [i \in 1..Len(cs) |-> Derived(cs[i])]
+TruncRejected == AllEnc => LET b == EncList(cs) IN \A n \in 0..(Len(b) - 1) : ~ParseList(SubSeq(b, 1, n)).ok
+CutDomain == Len(cs) = 1 /\ Len(cs[1].name) <= 2 /\ AllEnc
 ContentsCutRejected == CutDomain => \A n \in 0..(Len(Contents(cs[1])) - 1) : ~ParseList(EncListCut(cs[1], n)).ok
 ContentsCutRejectedX == CutDomain => /\ \A n \in 0..(Len(ContentsX(cs[1])) - 1) : ~ParseList(EncListCutX(cs[1], n)).ok
                                       /\ LET p == ParseList(EncListCutX(cs[1], Len(ContentsX(cs[1])))) IN p.ok /\ p.v = <<Derived(cs[1])>>
-DanglingRejected == cs # <<>> => \A k \in 1..3 : ~ParseList(EncListDangling(cs, k)).ok
-Emit == PrintT(<<"CASE", ToJson([cfgs |-> cs, bytes |-> EncList(cs),
+DanglingRejected == (cs # <<>> /\ AllEnc) => \A k \in 1..3 : ~ParseList(EncListDangling(cs, k)).ok
+Emit == PrintT(<<"CASE", ToJson([cfgs |-> cs, encodable |-> AllEnc, bytes |-> IF AllEnc THEN EncList(cs) ELSE <<>>,
                                  cuts |-> IF CutDomain THEN [n \in 1..Len(Contents(cs[1])) |-> EncListCut(cs[1], n - 1)] ELSE <<>>,
                                  xcuts |-> IF CutDomain THEN [n \in 1..(Len(ContentsX(cs[1])) + 1) |-> EncListCutX(cs[1], n - 1)] ELSE <<>>,
-                                 dangling |-> IF cs = <<>> THEN <<>> ELSE [k \in 1..3 |-> EncListDangling(cs, k)]])>>)
+                                 dangling |-> IF cs = <<>> \/ ~AllEnc THEN <<>> ELSE [k \in 1..3 |-> EncListDangling(cs, k)]])>>)
 ==========================================================================
